@@ -60,6 +60,11 @@ func (glyph *SimpleGlyph) Decode() (*GlyphInfo, error) {
 	if numContours > 0 {
 		numPoints = int(endPtsOfContours[numContours-1]) + 1
 	}
+	for i := 1; i < numContours; i++ {
+		if endPtsOfContours[i] < endPtsOfContours[i-1] {
+			return nil, errInvalidGlyphData
+		}
+	}
 
 	instructionLength := int(buf[0])<<8 | int(buf[1])
 	if len(buf) < 2+instructionLength {
